@@ -30,6 +30,8 @@ TDelete == /\ IsEvent("delete") /\ Ev.rid \in RanOf(rids)
 TGet == /\ IsEvent("get") /\ Ev.rid \in RanOf(rids)
         /\ Get(SpecId(Ev.rid))
         /\ ret'.found = Ev.found /\ (Ev.found => ret'.v = Ev.v) /\ UNCHANGED rids
+        \* the mutable lookup (where the collection has one) answers exactly the same
+        /\ ("found_mut" \in DOMAIN Ev => Ev.found_mut = Ev.found /\ (Ev.found => Ev.v_mut = Ev.v))
 
 TIter == /\ IsEvent("iter") /\ Iter
          /\ [q \in DOMAIN ret'.res |-> <<rids[ret'.res[q][1]], ret'.res[q][2]>>] = Ev.items
